@@ -154,6 +154,15 @@ def run_C16(seed, tier):
             res['distribution']['grammars'] += 1
         for v in cli_failures(cli, d, res):
             res['prop'].append(v)
+        # the macro route
+        from . import macroroute
+        mr = macroroute.run_macro(seed, tier)
+        res['evaluations'] += mr['evaluations']
+        res['nontrivial'] |= {('macro',) + tuple(k) for k in mr['nontrivial']}
+        res['prop'] += mr['prop']
+        res['strict'] += mr['strict']
+        for k, v in mr['distribution'].items():
+            res['distribution'][k] += v
         res['engine'] = 'routes'
         res['wall_s'] = time.time() - t0
         return res
